@@ -144,7 +144,7 @@ Definition valid_package_strcase (P : decl_package) : Prop :=
   /\ Forall (fun d => is_query_request (df_req d) = true -> exists root, list_root (df_resp d) = Ok root) (all_methods P)
   /\ all_refs_link (im_schemas (compile_image to_snake P)) = true
   /\ wf_env (im_schemas (compile_image to_snake P))
-  /\ (forall k, In k (map fst (dp_schemas P)) -> fst k <> dp_pkg P ++ DOT :: SERVICE).
+  /\ flat_free (im_schemas (compile_image to_snake P)).
 
 Lemma valid_package_strcase_valid P : valid_package_strcase P -> valid_package to_snake P.
 Proof.
@@ -196,7 +196,7 @@ Definition valid_package_strcase_d (P : decl_package) : Prop :=
   /\ Forall (fun d => is_query_request (df_req d) = true -> exists root, list_root (df_resp d) = Ok root) (all_methods P)
   /\ all_refs_link (im_schemas (compile_image to_snake P)) = true
   /\ wf_env (im_schemas (compile_image to_snake P))
-  /\ (forall k, In k (map fst (dp_schemas P)) -> fst k <> dp_pkg P ++ DOT :: SERVICE).
+  /\ flat_free (im_schemas (compile_image to_snake P)).
 
 Lemma valid_package_strcase_d_valid P : valid_package_strcase_d P -> valid_package to_snake P.
 Proof.
